@@ -168,4 +168,61 @@ def register (h : Heap) (o : Obj) (scripted : Bool) (funcs : List (String × Nat
   let o' := { o with codegen := some ((o.codegen.getD []) ++ funcs.map Prod.fst) }
   (funcs.foldl (fun hh fp => addChild hh o' fp.1 (if scripted then .ts fp.2 else .fx fp.2)) h, o')
 
+/-! ### in-place conversion of a live module, and the memoising variant of `__getstate__` (NOT in e3nn)
+
+`m.double()` / `m.to(dtype)` convert the tensors owned by the generated children in place: the child OBJECTS
+stay the same, their content — the payload — changes.  `__getstate__` as written serialises the children as
+they are at the time of the call.  `getstateMemo` models the seeded change "serialise every ScriptModule only
+once" (a cache keyed by the identity of the child, here: the name under which the module holds it). -/
+
+def Sub.retype (f : Nat → Nat) : Sub → Sub
+  | .fx p => .fx (f p)
+  | .ts p => .ts (f p)
+  | .plain i => .plain i
+
+def retypeMods (f : Nat → Nat) (ms : Modules) : Modules := ms.map fun p => (p.1, p.2.retype f)
+
+/-- `m.to(...)` on the live module `o` -/
+def retype (f : Nat → Nat) (h : Heap) (o : Obj) : Heap :=
+  h.set o.modules (retypeMods f ((h[o.modules]?).getD []))
+
+abbrev Cache := List (String × Blob)
+
+def getstateLoopMemo (orig : Modules) : List String → Cache → Modules → List (String × Blob) →
+    Except Err (Cache × Modules × List (String × Blob))
+  | [], c, out, cs => .ok (c, out, cs)
+  | f :: fs, c, out, cs =>
+      match orig.getKey? f with
+      | none => .error .attributeError
+      | some s =>
+          match s.dump? with
+          | none => .error .assertionError
+          | some b =>
+              -- only TorchScript children are memoised; fx children are pickled every time
+              let (c', b') := match s, ODict.getKey? c f with
+                | .ts _, some cached => (c, cached)
+                | .ts _, none => (c ++ [(f, b)], b)
+                | _, _ => (c, b)
+              if out.hasKey f then getstateLoopMemo orig fs c' (out.delKey f) (cs ++ [(f, b')])
+              else .error .keyError
+
+def getstateMemo (c : Cache) (h : Heap) (o : Obj) : Except Err (Cache × Heap × State) :=
+  match h[o.modules]? with
+  | none => .error .keyError
+  | some ms =>
+      match o.codegen with
+      | none => .ok (c, h ++ [ms], ⟨o.attrs, h.length, none⟩)
+      | some names =>
+          match getstateLoopMemo ms names c ms [] with
+          | .error e => .error e
+          | .ok (c', out, cs) => .ok (c', h ++ [out], ⟨o.attrs, h.length, some cs⟩)
+
+def roundtripMemo (c : Cache) (h : Heap) (o : Obj) : Except Err (Cache × Heap × Obj) :=
+  match getstateMemo c h o with
+  | .error e => .error e
+  | .ok (c', h1, st) =>
+      let (h2, st') := transport h1 st
+      let r := setstate h2 st'
+      .ok (c', r.1, r.2)
+
 end E3nnVerif.Model.CodegenState
